@@ -374,4 +374,73 @@ def run(chk):
         if len(ups) != 1 or "new_connections" not in show(ups[0]["a"][0]):
             chk.violation(r_reb, key + ":install", "Well::%s does not install the rebuilt set with updateConnections(new_connections, ...)" % key, f["file"], f["l"])
     chk.extra["rebuild_functions"] = n_fn
+
+    # ---- C06.frame: net-to-gross scales the VERTICAL cell extent: index 2 of a triple that is still in the grid's
+    # x,y,z order, never of one that has been permuted into the completion's order
+    r_fr = chk.rule("C06.frame", "net-to-gross multiplies component [2] of a triple in grid (x,y,z) order, not of one permuted into completion order; a function that receives ntg uses it", floor=5)
+    for f in fx.fns:
+        if not f["file"].endswith(WC) or not f.get("body"):
+            continue
+        # variables holding a permuted triple: initialised / assigned from elements subscripted with p[..], p from directionIndices
+        perm_idx = set()
+        permuted = set()
+        for n in walk_fn(f):
+            if n["k"] == "Decl":
+                for v in n["vars"]:
+                    i = v.get("init")
+                    if i is not None and any(c.get("k") == "Call" and (c.get("fn") or "").endswith("directionIndices") for c in walk(i)):
+                        perm_idx.add(v["n"])
+        def is_permuted_expr(e):
+            for x in walk(e):
+                if x["k"] in ("Idx", "OpCall"):
+                    idx = x["c"][1] if x["k"] == "Idx" else (x["a"][1] if x.get("op") == "[]" and len(x.get("a", [])) == 2 else None)
+                    if idx is not None and any(y["k"] == "Ref" and y["n"] in perm_idx for y in walk(idx)):
+                        return True
+                if x["k"] == "Call" and (x.get("fn") or "").split("::")[-1] in ("effectiveExtent", "permComponents"):
+                    return True
+            return False
+        changed = True
+        while changed:
+            changed = False
+            for n in walk_fn(f):
+                if n["k"] == "Decl":
+                    for v in n["vars"]:
+                        if v.get("init") is not None and v["n"] not in permuted and (is_permuted_expr(v["init"]) or any(y["k"] == "Ref" and y["n"] in permuted and y is strip(v["init"]) for y in walk(v["init"]))):
+                            permuted.add(v["n"])
+                            changed = True
+                elif n["k"] == "Bin" and n.get("asg") and n["op"] == "=" and strip(n["c"][0])["k"] == "Ref" and strip(n["c"][0])["n"] not in permuted and is_permuted_expr(n["c"][1]):
+                    permuted.add(strip(n["c"][0])["n"])
+                    changed = True
+        if any(p_["n"] == "ntg" for p_ in f.get("params", [])):
+            uses = [x for x in walk_fn(f) if x["k"] == "Ref" and x["n"] == "ntg"]
+            chk.instance(r_fr, "%s:uses-ntg" % f["q"].split("::")[-1], sample=dict(function=f["q"], uses=len(uses)))
+            if not uses:
+                chk.violation(r_fr, "%s:uses-ntg" % f["q"].split("::")[-1], "%s receives the cell's net-to-gross ratio but never uses it: the vertical extent / thickness is not reduced" % f["q"], f["file"], f["l"])
+        for n in walk_fn(f):
+            if n["k"] != "Bin" or n["op"] not in ("*", "*="):
+                continue
+            a, b = strip(n["c"][0]), strip(n["c"][1])
+            def is_ntg(x):
+                return (x["k"] == "Ref" and x["n"] == "ntg") or (x["k"] == "Mem" and x["n"] == "ntg")
+            other = b if is_ntg(a) else a if is_ntg(b) else None
+            if other is None:
+                continue
+            key = "%s@%d" % (f["q"].split("::")[-1], n["l"])
+            sub = None
+            if other["k"] == "Idx":
+                sub = (strip(other["c"][0]), strip(other["c"][1]))
+            elif other["k"] == "OpCall" and other.get("op") == "[]" and len(other.get("a", [])) == 2:
+                sub = (strip(other["a"][0]), strip(other["a"][1]))
+            if sub is None:
+                chk.instance(r_fr, key, nontrivial=False, sample=dict(function=f["q"], expr=show(n)[:80], note="net-to-gross multiplies a scalar"))
+                chk.info(r_fr, "%s: net-to-gross multiplies `%s`, not a component of a triple - not governed" % (key, show(other)[:60]))
+                continue
+            base, idx = sub
+            bname = base.get("n")
+            frame = "completion order" if bname in permuted else "grid order"
+            chk.instance(r_fr, key, sample=dict(function=f["q"], expr=show(n)[:80], triple=bname, frame=frame, index=show(idx)))
+            if idx["k"] != "Int" or idx["v"] != 2:
+                chk.violation(r_fr, key, "%s applies net-to-gross to component [%s] of %s: NTG scales the vertical extent, component [2] of a grid-ordered triple" % (f["q"], show(idx), bname), f["file"], n["l"])
+            elif bname in permuted:
+                chk.violation(r_fr, key, "%s applies net-to-gross to %s[2] after %s has been permuted into the completion's order: for X/Y completions this scales the extent along the well bore instead of the vertical one (Kh, r0 and CF of a defaulted COMPDAT then deviate from the Peaceman values)" % (f["q"], bname, bname), f["file"], n["l"])
     chk.assumptions += ["dimension table FIELDS/CELL in rules/C06.py (CF and Kh are L^3 in SI, Ke L^2, radii and lengths L, skin and the Peaceman denominator dimensionless); numeric literals are dimension-polymorphic (sentinels such as -1.0)"]
